@@ -47,7 +47,10 @@ def is_judged_only(op):
 
 ASSUME = [
     "hsv / hsl (float32), ycbcr_601 forward (double), cmyka (double scale factor of the core rgb->cmyk): partial (float) -- the Lean model reproduces the IEEE operation "
-    "sequence (bit-exact correspondence on all 2^24 pixels); theorems cover the integer kernels and the exact-rational hsv case split",
+    "sequence (bit-exact correspondence on all 2^24 pixels); theorems cover the integer kernels and the exact-rational hsv case split; "
+    "RELATIVE TO FloatSpec (Props/C18Float.lean, C18_float_*): gray pixels round-trip exactly through hsv, value = converted maximum, the max_color/saturation threshold tests take the exact branch "
+    "and the saturation is in (0,1] within 1/4000 of (max-min)/max; the genuine binary32 rounding (constructed in Lean) is kernel-evaluated: round trip = identity on the 6x6x6 grid + boundary pixels, "
+    "and on sampled px hsv ops the abstract model equals the real code's hue/saturation/value bit patterns (kernel tie); the full 2^24 float budget (C18_hsv_roundtrip_u8) stays OPEN",
     "xyz and lab (powf) have no executable model: partial (transcendental) -- exhaustive real-code round trip judged by the Spec, which is evidence, not proof",
     "'small fixed tolerance' is read as: exact for hsv, hsl, xyz; one 8-bit level for lab and cmyka; three levels for ycbcr (its forward conversion truncates three channels)",
     "cmyka has no converter from rgb in the toolbox: the round trip is rgb8 -> cmyk8 (core) -> cmyka8 (alpha 255) -> rgba8 (toolbox)",
@@ -67,10 +70,31 @@ def check_xyz_constants(ctx):
         ctx.broken.append(("translator", "xyz_matrices", "matrix literals of xyz.hpp changed: %s" % found))
         ctx.log("xyz.hpp matrix literals differ from the ones C18_xyz_matrices_inverse is stated for: %s" % found)
 
+def abstract_tie(ctx, ops, impl):
+    """tie of the ABSTRACT float hsv converters of Props/C18Float (Lemmas/C18Float: rgbToHsvF, hsvRoundTripF) to the real code:
+    instantiated with the genuine IEEE rounding FloatSpec.binary32 and evaluated by the Lean kernel, they must return the
+    hue/saturation/value bit patterns and the round-trip pixel that the real code printed, on a seeded sample of `px hsv` ops"""
+    r = ctx.rng
+    cand = [(o, obs) for o, obs in zip(ops, impl) if o.startswith("px hsv ") and "|" in obs]
+    hsv, rt = [], []
+    for _ in range(min(len(cand), 200 if ctx.thorough() else 60)):
+        o, obs = cand[r.below(len(cand))]
+        w = o.split()
+        try:
+            a = [int(x) for x in obs.split("|")[0].split()]; b = [int(x) for x in obs.split("|")[1].split()]
+        except ValueError: continue
+        if len(a) != 3 or len(b) != 3: continue
+        px = "%s %s %s" % (w[2], w[3], w[4])
+        hsv.append(("rgbToHsvF FloatSpec.binary32 " + px, "(%s, %s, %s)" % tuple(vlib.f32_to_rat(x) for x in a), o))
+        rt.append(("hsvRoundTripF FloatSpec.binary32 " + px, "(%d, %d, %d)" % tuple(b), o))
+    hsv = list({c[0]: c for c in hsv}.values()); rt = list({c[0]: c for c in rt}.values())
+    vlib.kernel_tie(ctx, "C18Float-hsv", ["GilVerif.Props.C18Float"], ["GilVerif", "GilVerif.Lemmas.C18Float"], "(ℚ × ℚ × ℚ)", hsv, batch=24)
+    vlib.kernel_tie(ctx, "C18Float-roundtrip", ["GilVerif.Props.C18Float"], ["GilVerif", "GilVerif.Lemmas.C18Float"], "(ℤ × ℤ × ℤ)", rt, batch=24)
+
 def run(ctx, ops=None):
     vlib.regen(ctx, C18_syms.NAMESPACE, C18_syms.SYMS)
     check_xyz_constants(ctx)
-    obligations, discharged = vlib.standard_proof_steps(ctx)
+    obligations, discharged = vlib.standard_proof_steps(ctx, extra_props=["GilVerif.Props.C18Float"])
     binary, err = vlib.compile_harness(ctx, "harness/C18/main.cpp")
     samples, distinct, pixels = [], 0, 0
     if binary is None:
@@ -93,6 +117,7 @@ def run(ctx, ops=None):
             parcorr.correspond_parallel(ctx, "drv_C18", parcorr.chunks(binary, extra, 8192), label="expanded plane", compare_model=(sp in MODELLED))
             if len(ctx.failures) > n0:      # put a concrete pixel first
                 ctx.failures.insert(0, ctx.failures.pop(n0))
+        if discharged == obligations: abstract_tie(ctx, ops, impl)
         distinct = len(set(ops))
         pixels = sum(65536 if o.startswith("rt ") else 1 for o in ops)
         ctx.cov["pixels_judged"] = pixels
